@@ -78,10 +78,55 @@ def cases(tier, seed):
         if st in ("mie", "tm-spheroid", "ms2", "layered"):
             out.append({"id": "directions-only:%s" % st, "kind": "dirs",
                         "st": st, "ms_xsec": False})
+        if st in SCAN_STS:
+            # one theory OBJECT serving a scan of nearly equal particles
+            for sc in SCALES[tier] + SCAN_SCALES:
+                out.append({"id": "scan:%s:s=%r" % (st, sc), "kind": "scan",
+                            "st": st, "s": sc, "ms_xsec": False})
         for nm in NMEDS:
             out.append({"id": "medium:%s:n_m=%r" % (st, nm), "kind": "medium",
                         "st": st, "nm": nm, "ms_xsec":
                         (st, "medium%r" % nm) in MS_XSEC[tier]})
+    return out
+
+
+# units in which the particle's size is a small number (metres, kilometres):
+# an absolute threshold in a comparison of two sizes shows there
+SCAN_SCALES = [2.0 ** -20, 1e-6, 2.0 ** -30, 1e-9]
+SCAN_STS = ["mie", "mielens", "abmielens", "lens-mie", "tm-sphere", "ms1",
+            "layered"]
+# (radius factor, index increment, z increment in units of the radius):
+# steps of 0.1 .. 4 percent, as in a scan or a fit
+SCAN = [(1.0, 0.0, 0.0), (1.01, 0.0, 0.0), (1.024, 0.0, 0.0),
+        (1.024, 0.0, 0.02), (1.024, 0.004, 0.02), (1.04, 0.004, 0.02),
+        (1.001, 0.0, 0.0), (1.0, 0.0, 0.0)]
+
+
+def _scan(st, scale):
+    """holograms of the scan, all through ONE theory object"""
+    from holopy.scattering import calc_holo, Sphere
+    sspec, tspec = H.ST[st]
+    theory = H.mk_theory(tspec)
+    det = H.DETS["g4x5a"](scale)
+    base = H.mk_scatterer(sspec, scale)
+    if not isinstance(base, Sphere):
+        base = base.scatterers[0]
+    out = {}
+    for i, (fr, dn, dz) in enumerate(SCAN):
+        r = np.asarray(base.r) * fr
+        c = np.asarray(base.center, dtype=float)
+        c = (c[0], c[1], c[2] + dz * float(np.max(r)))
+        sc = Sphere(n=np.asarray(base.n) + dn if np.ndim(base.n) else
+                    base.n + dn, r=r if np.ndim(r) else float(r), center=c)
+        if st == "ms1":
+            from holopy.scattering import Spheres
+            sc = Spheres([sc])
+        try:
+            out["step%d" % i] = np.ascontiguousarray(calc_holo(
+                det, sc, medium_index=H.NMED, illum_wavelen=H.WL * scale,
+                illum_polarization=_pol_for(st), theory=theory).values)
+        except Exception as e:              # noqa
+            out["step%d" % i] = ("exc", type(e).__name__)
     return out
 
 
@@ -318,6 +363,18 @@ def run_case(case):
         return ck.result(fp=_run_dirs(case, ck))
     if case["kind"] == "intunits":
         return ck.result(fp=_run_intunits(case, ck))
+    if case["kind"] == "scan":
+        s = case["s"]
+        base, got = _scan(st, 1.0), _scan(st, s)
+        m, e = math.frexp(s)
+        fps = _compare(ck, "%s scan x%r" % (st, s), base, got, m == 0.5, s,
+                       1e-9)
+        d = [np.abs(base["step%d" % i] - base["step0"]).max()
+             for i in range(1, len(SCAN) - 1)
+             if not isinstance(base["step%d" % i], tuple)]
+        ck.true("scan-steps-differ", bool(d) and min(d) > 1e-6,
+                "the steps of the scan do not differ from one another")
+        return ck.result(fp=digest(*fps))
     if case["kind"] == "scale":
         s = case["s"]
         base = _quantities(st, 1.0, case["det"], ms_xsec=case["ms_xsec"])
